@@ -89,6 +89,12 @@ class Clause(object):
 
     def __exit__(self, et, ev, tb):
         if et is not None:
+            if issubclass(et, AnalysisError) and any(not o.ok for o in self.obs):
+                # the rule already found a concrete violation before it lost track of the
+                # code: report the violation (exit 1) rather than the analysis error
+                self.notes.append('analysis stopped early: %s' % ev)
+                self.run.clauses.append(self)
+                return True
             return False
         if len(self.obs) < self.floor and not any(not o.ok for o in self.obs):
             raise AnalysisError('%s-%s (%s): %d rule instances found, below the hand-confirmed '
